@@ -44,6 +44,8 @@ pub enum Chunking {
     Random(u64),
     /// 1..=asked with interleaved `Interrupted` results (at most 3 in a row)
     RandomEintr(u64),
+    /// at most this many bytes per call (a device with a fixed block size)
+    Fixed(usize),
 }
 
 impl Chunking {
@@ -53,6 +55,7 @@ impl Chunking {
             Chunking::One => "one".into(),
             Chunking::Random(s) => format!("random:{s}"),
             Chunking::RandomEintr(s) => format!("eintr:{s}"),
+            Chunking::Fixed(n) => format!("fixed:{n}"),
         }
     }
     pub fn parse(s: &str) -> Result<Chunking, String> {
@@ -68,6 +71,12 @@ impl Chunking {
         if let Some(r) = s.strip_prefix("eintr:") {
             return r.parse().map(Chunking::RandomEintr).map_err(|e| format!("{e}"));
         }
+        if let Some(r) = s.strip_prefix("fixed:") {
+            return r
+                .parse::<usize>()
+                .map(|n| Chunking::Fixed(n.max(1)))
+                .map_err(|e| format!("{e}"));
+        }
         Err(format!("bad chunking '{s}'"))
     }
     /// (eintr?, bytes) for a call that asks for `want` > 0 bytes.
@@ -75,6 +84,7 @@ impl Chunking {
         match *self {
             Chunking::Whole => (false, want),
             Chunking::One => (false, 1),
+            Chunking::Fixed(n) => (false, want.min(n.max(1))),
             Chunking::Random(seed) => {
                 let mut r = Rng::new(mix(&[seed, call as u64]));
                 (false, r.usize_range(1, want))
